@@ -114,6 +114,8 @@ pub struct Sys {
     pub focus: Focus,
     pub stack: Stack3,
     pub added: HashSet<Id>,
+    /// the records the user handed to add_enr
+    pub added_raw: HashSet<Vec<u8>>,
     pub established: HashSet<Id>,
     table_prev: Vec<(Id, Enr, bool, bool)>,
     records_seen: HashMap<Id, (u64, Vec<u8>)>,
@@ -151,6 +153,7 @@ impl Sys {
             focus,
             stack,
             added: HashSet::new(),
+            added_raw: HashSet::new(),
             established: HashSet::new(),
             table_prev: Vec::new(),
             records_seen: HashMap::new(),
@@ -187,6 +190,7 @@ impl Sys {
         let ok = self.w.discv5.add_enr(enr).is_ok();
         if ok {
             self.added.insert(self.w.id(i));
+            self.added_raw.insert(self.w.nodes[i].sim.ident.record_bytes());
         }
         ok
     }
@@ -366,8 +370,27 @@ impl Sys {
                     self.flag(rep, Focus::C12, "C12:record-replaced-without-higher-seq", format!("the stored record of {} (seq {seq}) was replaced by another record of seq {}", hx(&id[..4]), enr.seq()), json!({"node": hx(id)}));
                 }
             }
+            // a record that entered the table in a step whose only input was that node's own
+            // handshake packet came in through an incoming session: it must name the address
+            // the packet came from
+            let stored_now = self.records_seen.get(id).map(|(_, old)| *old != raw).unwrap_or(true);
+            if stored_now && self.stack == Stack3::V4 && !self.added_raw.contains(&raw) {
+                if let Some(inj) = &self.w.last_injected {
+                    let from_this_node = inj.node.is_some() && inj.node == self.w.node_by_id(id);
+                    if inj.tag.via == "handshake" && from_this_node && !matches!(inj.tag.msg, Some(RefMessage::Nodes { .. })) {
+                        rep.count("sys_records_stored_by_incoming_handshake");
+                        let src = inj.from;
+                        if enr.udp4_socket().map(SocketAddr::V4) != Some(src) {
+                            self.flag(rep, Focus::C12, "C12:incoming-session-stored-foreign-address", format!("the handshake packet of node {} from {src} put a record advertising {:?} into the table", hx(&id[..4]), enr.udp4_socket()), json!({"node": hx(id)}));
+                        }
+                    }
+                }
+            }
             self.records_seen.insert(*id, (enr.seq(), raw));
-            if self.stack == Stack3::V4 && !self.added.contains(id) {
+            // admission (the entry is new): a later record learnt from other nodes' NODES answers
+            // may name any address
+            let newly_admitted = !self.table_prev.iter().any(|(pid, ..)| pid == id);
+            if self.stack == Stack3::V4 && !self.added.contains(id) && newly_admitted {
                 if let Some(i) = self.w.node_by_id(id) {
                     let src = self.w.nodes[i].sim.addr();
                     if enr.udp4_socket().map(SocketAddr::V4) != Some(src) {
@@ -377,6 +400,10 @@ impl Sys {
             }
         }
         rep.max("sys_table_size", table.len() as u64);
+        // "replaces a stored record" is about entries that stayed in the table: a node that was
+        // removed and admitted again later may come back with whatever record it was dialled with
+        let present: HashSet<Id> = table.iter().map(|(id, ..)| *id).collect();
+        self.records_seen.retain(|id, _| present.contains(id));
 
         // ---- request cases (C14): what was the table when a request arrived ----
         if let Some(inj) = self.w.last_injected.clone() {
@@ -899,7 +926,12 @@ pub fn build_net(s: &mut Sys, spec: &NetSpec) -> Vec<usize> {
     };
     for _ in 0..spec.n {
         let a = next_addr(&mut k);
-        let seq = 1 + s.w.rng.below(4);
+        // sequence numbers are the peer's choice: mostly small, sometimes at the far end of the range
+        let seq = match s.w.rng.below(10) {
+            0 => u64::MAX - 100_000 - s.w.rng.below(1000),
+            1 => (1u64 << 63) - 2 + s.w.rng.below(4),
+            _ => 1 + s.w.rng.below(4),
+        };
         all.push(s.w.add_node(a, EnrAddr::Socket(a), seq));
     }
     for _ in 0..spec.silent {
@@ -981,7 +1013,38 @@ pub fn mixed(seed: u64, focus: Focus, rep: &mut Report) {
         }
         let nops = 10 + rng.usize(30);
         for _ in 0..nops {
-            match rng.below(16) {
+            match rng.below(18) {
+                16 | 17 => {
+                    // simultaneous open: the node under test and a peer dial each other at the same
+                    // moment; sometimes the peer has just signed a new record, which may name an
+                    // address it does not send from
+                    let i = *rng.pick(&honest);
+                    let api_first = rng.bool();
+                    let call = rng.below(3);
+                    let body = rng.bytes(8);
+                    let dial = |s: &mut Sys| match call {
+                        0 => s.api_ping(i),
+                        1 => s.api_find_designated(i, vec![0, 256]),
+                        _ => s.api_talk(i, body.clone()),
+                    };
+                    if api_first {
+                        dial(&mut s);
+                    }
+                    let declared = s.w.nodes[i].sim.ident.enr.udp4_socket().map(SocketAddr::V4).or(s.w.nodes[i].sim.ident.enr.udp6_socket().map(SocketAddr::V6));
+                    if let (Some(d), true) = (declared, rng.chance(1, 2)) {
+                        let old = s.w.nodes[i].sim.ident.record_bytes();
+                        let seq = s.w.nodes[i].sim.ident.enr.seq();
+                        let names = if rng.bool() { d } else { v4(10, 9, 8, 1 + rng.below(200) as u8, 9500 + rng.below(100) as u16) };
+                        s.w.nodes[i].sim.ident.rebuild_enr(seq.saturating_add(1 + rng.below(3)).min(u64::MAX - 10), EnrAddr::Socket(names));
+                        s.w.nodes[i].old_records.push(old);
+                    }
+                    let seq = s.w.nodes[i].sim.ident.enr.seq();
+                    s.w.node_request(i, RefMessage::Ping { id: vec![], enr_seq: seq });
+                    if !api_first {
+                        dial(&mut s);
+                    }
+                    rep.count("sys_simultaneous_dials");
+                }
                 0 | 1 => {
                     let t: Id = if rng.bool() { rng.array() } else { s.w.id(*rng.pick(&all)) };
                     s.api_find_node(t);
@@ -1043,7 +1106,10 @@ pub fn mixed(seed: u64, focus: Focus, rep: &mut Report) {
                     let declared = s.w.nodes[i].sim.ident.enr.udp4_socket().map(SocketAddr::V4).or(s.w.nodes[i].sim.ident.enr.udp6_socket().map(SocketAddr::V6));
                     if let Some(d) = declared {
                         let _ = addr;
-                        s.w.nodes[i].sim.ident.rebuild_enr(seq + 1 + rng.below(3), EnrAddr::Socket(d));
+                        // a small step, or a jump over more than half of the 64-bit range
+                        let step = if seq < (1 << 62) && rng.chance(1, 4) { (1u64 << 63) + rng.below(1000) } else { 1 + rng.below(3) };
+                        s.w.nodes[i].sim.ident.rebuild_enr(seq.saturating_add(step).min(u64::MAX - 10), EnrAddr::Socket(d));
+                        s.w.nodes[i].old_records.push(old.clone());
                         if rng.chance(1, 3) {
                             s.w.nodes[i].b.own_record_override = Some(old);
                         }
